@@ -394,6 +394,10 @@ def gen_cases(ctx, p, count):
             # linear convergence, 2..ITMAX correction steps, the halving test and the iteration cap are exercised
             am = rng.choice([0.003, 0.01, 0.03, 0.06, 0.1, 0.15, 0.25, 0.35, 0.45])
             c["apert"] = [am * rng.uniform(-1, 1) for _ in range(len(c["ind"]))]
+        if c["fact"] == 0 and k % 2 == 0:
+            # fact = DOFACT with the caller's equed / R / C variables still holding the outcome of an earlier, unrelated call that
+            # equilibrated: they are outputs of this call; the system refined must be the (unscaled) one that was factored
+            c["stale"] = rng.choice([1, 2, 3])
         cases.append(c)
     return cases
 
@@ -415,6 +419,10 @@ def eval_batch(ctx, p, exe, cases, tag, ienv=None):
         if r.get("padbad"):
             ctx.violation("p%sgssvx wrote %d values outside the n leading rows of B or X (ldb = %s, ldx = %s)" % (p, r["padbad"], c.get("ldb"), c.get("ldx")),
                           {"kind": "ssvx", "prec": p, "case": c, "ienv": ienv}, key={"class": "padding", "prec": p})
+        if c.get("stale") and c["fact"] == 0 and r.get("equed") not in (0, None):
+            ctx.violation("p%sgssvx(fact=DOFACT) returned equed = %s although it did not equilibrate: the caller's old value (%d, with R and C "
+                          "of another matrix) survived and is handed to ?gsrfs and to a later FACTORED call" % (p, r.get("equed"), c["stale"]),
+                          {"kind": "ssvx", "prec": p, "case": c, "ienv": ienv}, key={"class": "stale-equed", "prec": p})
         real_conj = False      # since the fix of F3 (s/dgstrs accept CONJ) real CONJ is checked like TRANS, NC and NR
         calls = gsrfs_calls(r)
         for ci, call in enumerate(calls):
